@@ -101,9 +101,12 @@ func genEncImage(env *Env, key []byte) encImage {
 	}
 	var regs [][2]uint32
 	pos := uint32(0)
-	big := r.Intn(8) == 0
+	big := r.Intn(10) == 0
 	if big { // more than 256 sectors, with one encrypted region across the 255/256 and 511/512 borders
-		nsec = 270 + r.Intn(300)
+		nsec = 258 + r.Intn(40)
+		if env.Tier == "thorough" {
+			nsec = 270 + r.Intn(300)
+		}
 		plain = make([]byte, nsec*2048+tail)
 		r.Read(plain)
 		regs = [][2]uint32{{0, uint32(1 + r.Intn(3))}, {uint32(nsec - 4), uint32(nsec - 2)}, {uint32(nsec - 1), uint32(nsec)}}
